@@ -297,6 +297,18 @@ def run_impl(case):
     lost = []
     meta = walk(root)
     meta.append(lost)
+    # "at the addresses the memory map reports": every register of every leaf map as the ROOT map lists it
+    # ([leaf position, local start, local stop, reported start, reported stop]; -1 = listed but nobody's)
+    owner = {}
+    for pos, (port, _u) in enumerate(leaves):
+        for res, _n, (ls, le) in port.memory_map.resources():
+            owner[id(res)] = (pos, ls, le)
+    reported = []
+    for info in root.dec.bus.memory_map.all_resources():
+        pos, ls, le = owner.pop(id(info.resource), (-1, 0, 0))
+        reported.append([pos, ls, le, info.start, info.end])
+    reported += [[pos, ls, le, -1, -1] for (pos, ls, le) in owner.values()]
+    meta.append(reported)
     bus = root.dec.bus
     # interfaces whose add() was refused are not part of the decoder: they keep talking (non-zero r_data every
     # cycle) and must have no influence on it
@@ -374,6 +386,11 @@ def oracle(case, obs):
     for (s_, e_) in (meta[2] if len(meta) > 2 else []):
         out.append(("C06", "windows", f"the subordinate that add() placed at [{s_:#x}, {e_:#x}) is missing from its decoder's "
                                       f"memory_map.windows(): the decoder cannot select it"))
+    for (pos, ls, le, rs, re_) in (meta[3] if len(meta) > 3 else []):
+        where = [addressed(meta, x) for x in range(rs, re_)]
+        if pos < 0 or rs < 0 or re_ - rs != le - ls or where != [(pos, ls + j) for j in range(le - ls)]:
+            out.append(("C06", "reported", f"the root memory map reports the register at local [{ls:#x}, {le:#x}) of leaf {pos} at "
+                                           f"[{rs:#x}, {re_:#x}); the decoders route those addresses to {where[:4]}"))
     for t, ((a, r, w, d, rds), (ports, rdata)) in enumerate(zip(case["stim"], rows)):
         hit = addressed(meta, a)
         for k, (pa, pr, pw, pd) in enumerate(ports):
